@@ -37,7 +37,7 @@ def run(ctx):
                 continue
             jobs.append('%s;;%s' % (c, p))
     run_client(ctx, jobs, pb=2 if q else 3, max_exec=800 if q else 20000)
-    djobs = ['%s;;%s' % (c, p) for c in (CORE if q else ALL) for p in DIRECTED if guards_needed(';' + p) <= SLOTTED.get(c, 99)]
+    djobs = ['%s;;%s' % (c, p) for c in ((CORE + ['lfrc2', 'hpd1', 'hed1']) if q else ALL) for p in DIRECTED if guards_needed(';' + p) <= SLOTTED.get(c, 99)]
     run_client(ctx, djobs, pb=2 if q else 3, max_exec=3000 if q else 40000, tag='rd')
     if not q:
         run_client(ctx, jobs, pb=5, max_exec=0, mode='random', runs=800)
